@@ -384,12 +384,76 @@ func filesOf(ents []entitySpec) []FileIn {
 	return fl
 }
 
+// manipScenarios: every subset of the six manipulation keys (quick: the subsets of size <= 2 and the full set)
+// on a root and on a subordinate, for each pairing of signer and subject key family, with key-identifier
+// extensions so that identifiers hashed from manipulated key bits are observed
+func manipScenarios(yield func(any)) {
+	keys := []string{".version", ".signatureAlgorithm", ".signatureValue", ".tbs.signature", ".tbs.subjectPublicKey.algorithm", ".tbs.subjectPublicKey.subjectPublicKey"}
+	sigFor := func(rsa bool) string {
+		if rsa {
+			return choose(sigAlgNames[:4])
+		}
+		return choose(sigAlgNames[4:])
+	}
+	for mask := 1; mask < 64; mask++ {
+		bits := 0
+		for b := 0; b < 6; b++ {
+			bits += mask >> b & 1
+		}
+		if !thorough() && bits > 2 && mask != 63 {
+			continue
+		}
+		for combo := 0; combo < 4; combo++ {
+			rootRsa, subRsa := combo&1 == 1, combo&2 == 2
+			m := J{}
+			for b, k := range keys {
+				if mask>>b&1 == 0 {
+					continue
+				}
+				switch k {
+				case ".version":
+					m[k] = choose([]int{-1, 0, 1, 2, 3, 127, 128, 1<<31 - 1})
+				case ".signatureValue", ".tbs.subjectPublicKey.subjectPublicKey":
+					m[k] = genRaw()
+				default:
+					m[k] = genOid()
+				}
+			}
+			alg := func(rsa bool) string {
+				if rsa {
+					return "RSA-1024"
+				}
+				return choose([]string{"P-256", "P-384", "brainpoolP256r1"})
+			}
+			exts := []J{{"subjectKeyIdentifier": J{"content": "hash"}}, {"authorityKeyIdentifier": J{"content": J{"id": "hash"}}}}
+			root := J{"version": 1, "subject": "CN=Manip Root", "keyAlgorithm": alg(rootRsa), "signatureAlgorithm": sigFor(rootRsa), "extensions": exts}
+			sub := J{"version": 1, "subject": "CN=Manip Sub", "issuer": "root", "keyAlgorithm": alg(subRsa), "signatureAlgorithm": sigFor(rootRsa), "extensions": exts}
+			if chance(1, 2) {
+				root["manipulations"] = m
+			} else {
+				sub["manipulations"] = m
+			}
+			ents := []entitySpec{{alias: "root", path: "root.yaml", issuer: -1, cfg: root}, {alias: "sub", path: "ca/sub.yaml", issuer: 0, cfg: sub}}
+			yield(PkiIn{Tz: 0, Strat: 9, Files: filesOf(ents)})
+		}
+	}
+}
+
 func genPki(yield func(any)) {
+	manipScenarios(yield)
 	tzs := []int{0, 3600, -5 * 3600, 14 * 3600, -12 * 3600, 19800}
 	for n := 0; n < pick(250, 4000); n++ {
 		size := 1 + rng.Intn(5)
 		ents := genForest(size, cfgOpts{fast: !thorough() || chance(9, 10), maxExt: 6, manip: chance(1, 5)})
-		yield(PkiIn{Tz: choose(tzs), Strat: choose([]int{9, 9, 1, 16, 31}), Files: filesOf(ents)})
+		var profs []profileSpec
+		if chance(1, 2) {
+			profs = attachProfiles(ents)
+		}
+		files := filesOf(ents)
+		for _, p := range profs {
+			files = append(files, p.file())
+		}
+		yield(PkiIn{Tz: choose(tzs), Strat: choose([]int{9, 9, 1, 16, 31}), Files: files})
 	}
 }
 
